@@ -54,6 +54,8 @@ ReadSeq(ref) ==
       \* operand of its comparison; programs end with `int 1; return`, which ignores what lies below)
       [] ref.kind = "swabs"    -> << IntC(ref.i), IntC((ref.i + 1) % 3), Op("swap"), Gtxns(ref.f) >>
       [] ref.kind = "swrel"    -> << IntC(ref.i), Txn("GroupIndex"), IntC(1), Op("+"), Op("swap"), Gtxns(ref.f) >>
+      \* the absolute index 1 + ref.i computed from two constants
+      [] ref.kind = "addc"     -> << IntC(1), IntC(ref.i), Op("+"), Gtxns(ref.f) >>
 
 R(kind, f, i) == [kind |-> kind, f |-> f, i |-> i]
 
@@ -100,7 +102,7 @@ FailTail(cons, region) == IF cons = "bz_fail" THEN << Lab("fail_" \o region), Op
 (* Skeletons.  K1 / K2 are statement sequences (already consumed checks), *)
 (* T1/T2 the fail tails for the main region / subroutine regions.          *)
 (* Each returns the program body after the pragma.                         *)
-NSkel == 31
+NSkel == 32
 Skel(j, K1, K2, Tm, Ts) ==
     CASE j = 1  -> K1 \o Approve \o Tm                                            \* straight line
       [] j = 2  -> K1 \o FreeCond(1) \o << Bz("else") >> \o Filler \o << B("join"), Lab("else") >> \o Filler
@@ -162,6 +164,9 @@ Skel(j, K1, K2, Tm, Ts) ==
                    \o FreeCond(2) \o << Bnz("other"), Lab("skip") >> \o Filler \o FreeCond(3) \o << Bz("other") >> \o Filler
                    \o << Op("retsub"), Lab("other") >> \o Filler \o << Op("retsub") >> \o Ts
                                                                                   \* dead code inside the callee: an unreachable block with two live successors
+      [] j = 32 -> << B("main"), Lab("up") >> \o Approve \o << Lab("main") >> \o K1
+                                                                                  \* the condition feeds a `bnz up` that is the LAST instruction (K1 = condition; bnz up):
+                                                                                  \* not taken, the program runs off the end with an empty stack and is rejected
 
 SkelUsesSub(j) == j \in {10, 11, 12, 13, 14, 15, 16, 17, 18, 20, 21, 23, 24, 25, 26, 27, 28, 29, 30, 31}
 SkelUsesK2(j)  == j \in {4, 19, 20, 21}
@@ -190,16 +195,17 @@ F1Case(fam, k, d) ==
         cmp  == IF ref.f = "ApplicationID" /\ d[2] >= 4 THEN [cmp0 EXCEPT !.op = "bare"] ELSE cmp0
         cons == Consumers[1 + d[6]]
         j    == 1 + d[7]
-        K1   == Stmt(cmp, cons, "a", Hole1Region(j))
+        K1   == IF j = 32 THEN CondSeq(cmp) \o << Bnz("up") >> ELSE Stmt(cmp, cons, "a", Hole1Region(j))
         K2   == Stmt(cmp, cons, "b", Hole2Region(j))
-        tm   == IF Hole1Region(j) = "m" \/ (SkelUsesK2(j) /\ Hole2Region(j) = "m") THEN FailTail(cons, "m") ELSE << >>
+        tm   == IF j = 32 THEN << >>
+                ELSE IF Hole1Region(j) = "m" \/ (SkelUsesK2(j) /\ Hole2Region(j) = "m") THEN FailTail(cons, "m") ELSE << >>
         ts   == IF Hole1Region(j) = "s" \/ (SkelUsesK2(j) /\ Hole2Region(j) = "s") THEN FailTail(cons, "s") ELSE << >>
         app  == d[8] = 1 \/ (cmp.c = 4 /\ ref.f \in SeqToSet(AddrFieldsG))   \* CreatorAddress needs application mode
         ver  == MaxOf({MinVersion(j), 3 + d[9]})
         body == (IF app THEN AppPreamble ELSE << >>) \o Skel(j, K1, K2, tm, ts)
     IN  [fam |-> fam, k |-> k,
          desc |-> [ref |-> ref, op |-> cmp.op, side |-> cmp.side, c |-> cmp.c, neg |-> cmp.neg,
-                   cons |-> cons, skel |-> j, app |-> app, ver |-> ver],
+                   cons |-> IF j = 32 THEN "bnz_up" ELSE cons, skel |-> j, app |-> app, ver |-> ver],
          prog |-> << Pragma(ver) >> \o body]
 
 F1Radix == << 10, 6, 2, 6, 3, 6, NSkel, 2, 6 >>
@@ -221,7 +227,7 @@ F1SentinelDigits ==
 
 -----------------------------------------------------------------------------
 (* Family f2: two checks, joined in one block by && / || or placed in two holes *)
-F2Joins == << "and", "or", "seq", "holes", "or_then", "implies" >>
+F2Joins == << "and", "or", "seq", "holes", "or_then", "implies", "and_lab", "or_lab", "and_lab2", "or_lab2" >>
 F2Pairs == << << R("txn", "RekeyTo", 0), R("txn", "Fee", 0) >>,
               << R("txn", "TypeEnum", 0), R("txn", "CloseRemainderTo", 0) >>,
               << R("txn", "TypeEnum", 0), R("txn", "AssetCloseTo", 0) >>,
@@ -254,17 +260,27 @@ F2Case(fam, k, d) ==
         \* implies: `if A then assert B` as a branch - the block before the branch constrains nothing, each arm one field
         implies(sfx, r) == CondSeq(cmpA) \o << Bnz("im" \o sfx), B("ia" \o sfx), Lab("im" \o sfx) >>
                            \o Consume(CondSeq(cmpB), "assert", sfx, r) \o << Lab("ia" \o sfx) >>
-        K1   == CASE join \in {"and", "or"} -> Consume(both, cons, "a", r1)
+        \* *_lab: the first operand (lab2: both operands) is computed BEFORE a label, the connective after it - for an
+        \* analysis that works block by block those operands are unknown values
+        lab(sfx, two) == LET con == << Op(IF join \in {"and_lab", "and_lab2"} THEN "&&" ELSE "||") >> \o Nots(d[9]) IN
+                         IF two THEN CondSeq(cmpA) \o CondSeq(cmpB) \o << Lab("lb" \o sfx) >> \o con
+                         ELSE CondSeq(cmpA) \o << Lab("lb" \o sfx) >> \o CondSeq(cmpB) \o con
+        K1   == CASE j = 32 -> both \o << Bnz("up") >>
+                  [] join \in {"and", "or"} -> Consume(both, cons, "a", r1)
+                  [] join \in {"and_lab", "or_lab"} -> Consume(lab("a", FALSE), cons, "a", r1)
+                  [] join \in {"and_lab2", "or_lab2"} -> Consume(lab("a", TRUE), cons, "a", r1)
                   [] join = "seq"   -> Stmt(cmpA, cons, "a", r1) \o Stmt(cmpB, cons, "c", r1)
                   [] join = "holes" -> Stmt(cmpA, cons, "a", r1)
                   [] join = "or_then" -> orThen("a", r1)
                   [] join = "implies" -> implies("a", r1)
         K2   == CASE join \in {"and", "or"} -> Consume(both, cons, "b", r2)
+                  [] join \in {"and_lab", "or_lab"} -> Consume(lab("b", FALSE), cons, "b", r2)
+                  [] join \in {"and_lab2", "or_lab2"} -> Consume(lab("b", TRUE), cons, "b", r2)
                   [] join = "seq"   -> Stmt(cmpA, cons, "b", r2) \o Stmt(cmpB, cons, "d", r2)
                   [] join = "holes" -> Stmt(cmpB, cons, "b", r2)
                   [] join = "or_then" -> orThen("b", r2)
                   [] join = "implies" -> implies("b", r2)
-        tm   == IF r1 = "m" \/ (SkelUsesK2(j) /\ r2 = "m") THEN FailTail(cons, "m") ELSE << >>
+        tm   == IF j = 32 THEN << >> ELSE IF r1 = "m" \/ (SkelUsesK2(j) /\ r2 = "m") THEN FailTail(cons, "m") ELSE << >>
         ts   == IF r1 = "s" \/ (SkelUsesK2(j) /\ r2 = "s") THEN FailTail(cons, "s") ELSE << >>
         app  == d[12] = 1
                 \/ (cmpA.c = 4 /\ pr[1].f \in SeqToSet(AddrFieldsG))
@@ -277,7 +293,7 @@ F2Case(fam, k, d) ==
                    join |-> join, neg |-> d[9], cons |-> cons, skel |-> j, app |-> app, ver |-> ver],
          prog |-> << Pragma(ver) >> \o body]
 
-F2Radix == << 12, 6, 2, 6, 6, 2, 6, 6, 2, 6, NSkel, 2 >>
+F2Radix == << 12, 6, 2, 6, 6, 2, 6, 10, 2, 6, NSkel, 2 >>
 F2Random(k) == F2Case("f2", k, [i \in 1..Len(F2Radix) |-> Rnd(k, 2, i, F2Radix[i])])
 F2SentinelDigits ==
     { << p, 0, 0, 0, 0, 0, 0, jn, n, 0, 0, 0 >> : p \in 0..11, jn \in 0..2, n \in 0..1 }
@@ -286,12 +302,14 @@ F2SentinelDigits ==
     \* implies (if OnCompletion == Update then Sender == A1, if TypeEnum == pay then CloseRemainderTo == zero, ...) in the
     \* straight line, after a call, and after the first of two call sites of a shared nested callee
     \cup { << p, 0, 0, 0, 0, 0, c2, 5, 0, 0, j, 0 >> : p \in {1, 2, 3}, c2 \in {0, 1}, j \in {0, 12, 29} }
+    \* connectives whose operands come from another block, with every consumer (the false side continues for bz_ok / bnz_next)
+    \cup { << p, 0, 0, 1, 0, 0, 1, jn, n, cons, 0, 0 >> : p \in {3, 6, 7, 10}, jn \in 6..9, n \in 0..1, cons \in 0..5 }
 
 -----------------------------------------------------------------------------
 (* Family f3: reads of other group members, with size / index checks *)
 F3Fields == << "RekeyTo", "Fee", "TypeEnum", "CloseRemainderTo", "OnCompletion", "Sender", "AssetCloseTo" >>
-F3Kinds  == << "gtxn", "gtxns", "self", "relp", "relps", "relm", "relms", "swabs", "swrel" >>
-AbsKinds == {"gtxn", "gtxns", "swabs", "swrel"}
+F3Kinds  == << "gtxn", "gtxns", "self", "relp", "relps", "relm", "relms", "swabs", "swrel", "addc" >>
+AbsKinds == {"gtxn", "gtxns", "swabs", "swrel", "addc"}
 F3Idx(kind, d) == IF kind \in AbsKinds THEN << 0, 1, 2, 15 >>[1 + d] ELSE << 1, 2, 1, 2 >>[1 + d]
 F3Guards == << "none", "size_eq", "size_le", "index_eq", "size_and_index", "index_ne" >>
 GuardSeq(g, i) ==
@@ -311,6 +329,8 @@ F3Case(fam, k, d) ==
         ref  == R(kind, f, i)
         cmp  == MkCmp(ref, d[4], IF d[5] = 0 \/ kind \in {"swabs", "swrel"} THEN "L" ELSE "R", 1 + d[6], 0)
         g    == F3Guards[1 + d[7]]
+        \* (no second member for the kinds that already involve a decoy position: the input space would explode)
+        second == d[10] = 1 /\ kind \notin {"swabs", "swrel", "addc"}
         cons == Consumers[1 + d[8]]
         j    == 1 + d[9]
         \* optionally a second read of another member, so that up to three members are involved
@@ -318,24 +338,25 @@ F3Case(fam, k, d) ==
         cmp2 == MkCmp(ref2, d[4], "L", 1 + d[6], 0)
         r1   == Hole1Region(j)
         r2   == Hole2Region(j)
-        K1   == GuardSeq(g, IF kind \in AbsKinds THEN i ELSE 1) \o Stmt(cmp, cons, "a", r1)
-                \o (IF d[10] = 1 THEN Stmt(cmp2, cons, "c", r1) ELSE << >>)
+        K1   == IF j = 32 THEN GuardSeq(g, IF kind \in AbsKinds THEN i ELSE 1) \o CondSeq(cmp) \o << Bnz("up") >>
+                ELSE GuardSeq(g, IF kind \in AbsKinds THEN i ELSE 1) \o Stmt(cmp, cons, "a", r1)
+                     \o (IF second THEN Stmt(cmp2, cons, "c", r1) ELSE << >>)
         K2   == Stmt(cmp, cons, "b", r2)
-        tm   == IF r1 = "m" \/ (SkelUsesK2(j) /\ r2 = "m") THEN FailTail(cons, "m") ELSE << >>
+        tm   == IF j = 32 THEN << >> ELSE IF r1 = "m" \/ (SkelUsesK2(j) /\ r2 = "m") THEN FailTail(cons, "m") ELSE << >>
         ts   == IF r1 = "s" \/ (SkelUsesK2(j) /\ r2 = "s") THEN FailTail(cons, "s") ELSE << >>
         app  == d[11] = 1 \/ (cmp.c = 4 /\ f \in SeqToSet(AddrFieldsG))
         ver  == MaxOf({MinVersion(j), 4})
         body == (IF app THEN AppPreamble ELSE << >>) \o Skel(j, K1, K2, tm, ts)
     IN  [fam |-> fam, k |-> k,
-         desc |-> [ref |-> ref, op |-> cmp.op, side |-> cmp.side, c |-> cmp.c, guard |-> g, second |-> d[10],
+         desc |-> [ref |-> ref, op |-> cmp.op, side |-> cmp.side, c |-> cmp.c, guard |-> g, second |-> IF second THEN 1 ELSE 0,
                    cons |-> cons, skel |-> j, app |-> app, ver |-> ver],
          prog |-> << Pragma(ver) >> \o body]
 
-F3Radix == << 7, 9, 4, 6, 2, 6, 6, 6, NSkel, 2, 2 >>
+F3Radix == << 7, 10, 4, 6, 2, 6, 6, 6, NSkel, 2, 2 >>
 F3Random(k) == F3Case("f3", k, [i \in 1..Len(F3Radix) |-> Rnd(k, 3, i, F3Radix[i])])
 F3SentinelDigits ==
-    { << f, kd, ix, 0, 0, 0, g, 0, 0, 0, 0 >> : f \in 0..2, kd \in 0..8, ix \in 0..1, g \in 0..5 }
-    \cup { << 1, kd, 0, 3, s, 1, g, 0, 0, 0, 0 >> : kd \in 0..8, s \in 0..1, g \in {0, 4} }
+    { << f, kd, ix, 0, 0, 0, g, 0, 0, 0, 0 >> : f \in 0..2, kd \in 0..9, ix \in 0..1, g \in 0..5 }
+    \cup { << 1, kd, 0, 3, s, 1, g, 0, 0, 0, 0 >> : kd \in 0..9, s \in 0..1, g \in {0, 4} }
     \* an application that checks another member's OnCompletion / Sender
     \cup { << f, kd, 0, 0, 0, 0, 0, 0, 0, 0, 1 >> : f \in {4, 5}, kd \in 0..1 }
     \* absolute-index reads only inside a loop body / only in a callee (group-size-check)
